@@ -41,6 +41,7 @@ var c14strings = []c14piece{
 	{`"it's ?"`, false, "other-quote-inside"},
 	{`''`, false, "empty-string"},
 	{`'semi;?'`, false, "single-quoted"},
+	{`'a;b'`, false, "semicolon-in-string"},
 }
 var c14idents = []c14piece{
 	{"`c?1`", false, "backquoted-identifier"},
@@ -51,6 +52,12 @@ var c14idents = []c14piece{
 var c14comments = []c14piece{
 	{"/* ? */", false, "c-comment"},
 	{"/* it's ? */", false, "c-comment-with-quote"},
+	{"/*/ why? */", false, "c-comment-opening-with-a-slash"},
+	{"/*/ it's ? */", false, "c-comment-opening-with-a-slash"},
+	{"/**/", false, "empty-c-comment"},
+	{"/*? */", false, "c-comment"},
+	{"/* ? **/", false, "c-comment-closing-with-two-stars"},
+	{"/* a;b ? */", false, "c-comment-with-semicolon"},
 	{"-- ? dash\n", false, "dash-comment"},
 	{"-- it's ?\n", false, "dash-comment-with-quote"},
 	{"# ? hash\n", false, "hash-comment"},
